@@ -34,6 +34,9 @@ type Op struct {
 	CancelUs int `json:"cancel_us,omitempty"`
 	// Await: futures / correctables are waited for before the thread continues.
 	Await bool `json:"await,omitempty"`
+	// CancelOnReturn: the thread cancels the call's context as soon as the stub has returned
+	// (the `defer cancel()` of a caller that gives every call a context of its own)
+	CancelOnReturn bool `json:"cancel_on_return,omitempty"`
 	Us    int  `json:"us,omitempty"` // sleep
 }
 
@@ -421,6 +424,9 @@ func Run(c Case, h Hooks) Result {
 						}()
 					}
 					issueBounded(call)
+					if op.CancelOnReturn && call.Returned() {
+						call.Cancel()
+					}
 					if op.Await {
 						// the thread collects the future if it completes soon; a call that cannot
 						// complete by itself must not stall the program
